@@ -73,6 +73,9 @@ impl SocketBackend for SubSocketBackend {
 
     fn shutdown(&self) {
         self.peers.clear_sync();
+        if let Some(inner) = &self.fair_queue_inner {
+            inner.lock().clear();
+        }
     }
 
     fn monitor(&self) -> &Mutex<Option<mpsc::Sender<SocketEvent>>> {
